@@ -1242,10 +1242,31 @@ draw_row_indexed(vbi_page * pg, vbi_char * ac, uint8_t * canvas, uint8_t * pen,
         const int ch = is_cc ? CCH : TCH;
 	void (* draw_char_indexed)(uint8_t *, int, uint8_t *, int, vbi_char *)
                 = is_cc ? draw_char_cc_indexed : draw_char_vt_indexed;
+	uint8_t scratch[2 * TCW * TCH];
+	uint8_t *row_canvas;
+	int row_stride;
 	int column;
         int unicode;
+	int i;
 
-        for (column = 0; column < pg->columns ; canvas += cw, column++, ac++) {
+	row_canvas = canvas;
+	row_stride = rowstride;
+
+        for (column = 0; column < pg->columns;
+	     row_canvas += cw, column++, ac++) {
+				canvas = row_canvas;
+				rowstride = row_stride;
+
+				if (!is_cc && column + 1 == pg->columns
+				    && (VBI_DOUBLE_WIDTH == ac->size
+					|| VBI_DOUBLE_SIZE == ac->size
+					|| VBI_DOUBLE_SIZE2 == ac->size)) {
+					/* The right half of the character lies
+					   outside the image, draw into a scratch
+					   buffer and copy only the left half. */
+					canvas = scratch;
+					rowstride = 2 * TCW;
+				}
 
 				if (ac->size == VBI_OVER_TOP
 				    || ac->size == VBI_OVER_BOTTOM) {
@@ -1351,6 +1372,12 @@ draw_row_indexed(vbi_page * pg, vbi_char * ac, uint8_t * canvas, uint8_t * pen,
 					} else
 						draw_char_indexed(canvas, rowstride, pen, unicode, ac);
 					break;
+				}
+
+				if (canvas != row_canvas) {
+					for (i = 0; i < TCH; i++)
+						memcpy (row_canvas + i * row_stride,
+							canvas + i * rowstride, TCW);
 				}
 			}
 }
